@@ -96,3 +96,63 @@ impl Item for u64 {
     fn scratch() -> Self { 0 }
     fn add(&mut self, d: u64) { *self = self.wrapping_add(d); }
 }
+
+// ------------------------------------------------------------------------------------------------------------
+// Atomic-event log (suite S-ev): every atomic access of the concurrent buffer, through the verif-hooks listener.
+use mutringbuf::verif_hooks::{self as hooks, Event, Kind, Listener};
+use std::sync::atomic::{AtomicBool, Ordering as AO};
+use std::sync::{Arc, Mutex};
+
+pub struct Logged { pub kind: Kind, pub addr: usize, pub order: AO, pub value: usize, pub probe: Option<Vec<u64>> }
+
+pub struct Logger { pub log: Mutex<Vec<Logged>>, pub enabled: AtomicBool }
+
+thread_local! {
+    /// what the harness wants to look at when the operation publishes its index (data written before publication?)
+    pub static PROBE: RefCell<Option<Box<dyn Fn() -> Vec<u64>>>> = RefCell::new(None);
+}
+
+impl Listener for Logger {
+    fn before(&self, e: &Event) -> Option<usize> {
+        if self.enabled.load(AO::Relaxed) && e.kind != Kind::Load {
+            let probe = if e.kind == Kind::Store { PROBE.with(|p| p.borrow().as_ref().map(|f| f())) } else { None };
+            self.log.lock().unwrap().push(Logged { kind: e.kind, addr: e.addr, order: e.order, value: e.value, probe });
+        }
+        None
+    }
+    fn after(&self, e: &Event, read: usize) {
+        if self.enabled.load(AO::Relaxed) && e.kind == Kind::Load {
+            self.log.lock().unwrap().push(Logged { kind: e.kind, addr: e.addr, order: e.order, value: read, probe: None });
+        }
+    }
+}
+
+pub fn install_logger() -> Arc<Logger> {
+    let l = Arc::new(Logger { log: Mutex::new(vec![]), enabled: AtomicBool::new(false) });
+    hooks::set_listener(Some(l.clone()));
+    l
+}
+
+pub fn ord_name(o: AO) -> &'static str {
+    match o { AO::Relaxed => "rlx", AO::Acquire => "acq", AO::Release => "rel", AO::AcqRel => "acqrel", AO::SeqCst => "seqcst", _ => "?" }
+}
+
+/// renders the log; `names` maps addresses to P / W / C (index words) and A (liveness word)
+pub fn render_events(log: &[Logged], names: &std::collections::HashMap<usize, char>, final_probe: Option<Vec<u64>>) -> String {
+    let mut out = vec![];
+    for e in log {
+        let n = names.get(&e.addr).cloned().unwrap_or('?');
+        let mut s = match e.kind {
+            Kind::Load => format!("ld:{}:{}:{}", n, ord_name(e.order), e.value),
+            Kind::Store => format!("st:{}:{}:{}", n, ord_name(e.order), e.value),
+            Kind::FetchAnd => format!("and:{}:{}:{}", n, ord_name(e.order), e.value),
+            Kind::FetchOr => format!("or:{}:{}:{}", n, ord_name(e.order), e.value),
+            Kind::Fence => format!("fence:{}", ord_name(e.order)),
+            Kind::BufFree => "free".to_string(),
+            Kind::BufAlloc => "alloc".to_string(),
+        };
+        if let (Some(p), Some(f)) = (&e.probe, &final_probe) { if p != f { s.push_str("@early"); } }
+        out.push(s);
+    }
+    out.join(",")
+}
